@@ -8,7 +8,7 @@ CONSTANTS
   MaxSteps = 6
   Modes = {"normal", "coro"}
   Typed = FALSE
-  Ops = {"ConstructEmpty", "ConstructSelf", "AddSelf", "Yield", "MoveConstruct", "AddHandle", "AddTo", "MergeShl", "MoveAssign", "Pop", "Clear", "Destroy", "CoAwait"}
+  Ops = {"ConstructEmpty", "MoveConstruct", "AddHandle", "AddTo", "MergeShl", "MoveAssign", "Pop", "Clear", "Destroy", "CoAwait"}
   Fixed = TRUE
   Targets = {3, 6, 12, 24}
 INVARIANTS TypeOK RepOK NoDoubleResume Conservation NoLeak
